@@ -955,12 +955,28 @@ def _trig_reduce(num):
     return num
 
 
+def _trig_consts(t):
+    """sin 0 = 0, cos 0 = 1, cos(acos x) = x (the latter on acos's domain [-1, 1]; outside it both are NaN)"""
+    rep = {}
+    for a in t.atoms(sp.core.function.AppliedUndef):
+        nm = a.func.__name__
+        if nm in ('Sin', 'Cos') and len(a.args) == 1:
+            x = a.args[0]
+            if x == 0:
+                rep[a] = sp.Integer(0) if nm == 'Sin' else sp.Integer(1)
+            elif nm == 'Cos' and isinstance(x, sp.core.function.AppliedUndef) and x.func.__name__ == 'acos' and len(x.args) == 1:
+                rep[a] = x.args[0]
+    return t.xreplace(rep) if rep else t
+
+
 def is_zero(t, trig=False):
     """exact: t == 0 as a rational function of its symbols and atoms (Sel-free)"""
     if not isinstance(t, sp.Basic):
         return t == 0
     if t.has(Sel):
         return all(is_zero(x, trig) for _, x in cases(t))
+    if trig:
+        t = _trig_consts(t)
     t2 = sp.expand(t)
     if t2 == 0:
         return True
